@@ -13,3 +13,4 @@ def rules(ctx):
     S.walker_rules(ctx)
     S.c20_r4_page_addresses(ctx)
     S.c14_rules(ctx)
+    S.refcount_rules(ctx)
